@@ -245,13 +245,25 @@ def run_api(ctx, L, icu, idx, ntriples):
                 rc5, lst = L.value_create(KIND_LIST)
                 L.call('cif_value_insert_element_at', lst, 0, tb)
                 rc6, inner = L.list_get(lst, 0)
-                for what, cp in (('clone', cl), ('copy stored in a list', inner)):
+                # ... and with the table through the managed CIF: stored as an item value and read back
+                rc7, hb = L.create_block(cif, 'tbl%d' % t)
+                rc8 = L.set_value(hb, '_tbl', tb)
+                rc9, back = L.get_value(hb, '_tbl')
+                copies = [('clone', cl), ('copy stored in a list', inner)]
+                if rc8 == CIF_OK and rc9 == CIF_OK and back:
+                    copies.append(('copy stored in a CIF and read back', back))
+                else:
+                    ctx.violation('match:table:store:%d/%d' % (rc8, rc9), 'storing a table with key %s in a CIF -> %d, reading it back -> %d' % (cps(k2), rc8, rc9), info)
+                for what, cp in copies:
                     rck, ckeys = L.table_keys(cp)
                     if sorted(ckeys) != sorted(want):
                         ctx.violation('match:table:keys:copy-spelling', 'keys of a %s of the table: %r, the table\'s own %r' % (what, [cps(k) for k in ckeys], [cps(k) for k in want]), info)
                     rcg, e = L.table_get(cp, k1)
                     if rcg != CIF_OK:
                         ctx.violation('match:table:lookup:copy-missed', 'key %s is not found in a %s of the table (rc %d)' % (cps(k1), what, rcg), info)
+                if back:
+                    L.value_free(back)
+                L.container_destroy(hb)
                 L.value_free(cl)
                 L.value_free(lst)
                 L.value_free(a)
